@@ -421,6 +421,24 @@ func (sc *vcScenario) check() {
 	if vcInternalAccounting != nil {
 		vcInternalAccounting(s)
 	}
+	// the recovered store keeps working on what it recovered: on every blob
+	// that is still there, metadata updates are read back exactly (whatever a
+	// crashed update left lying around in the blob directory)
+	for k := range vcKeys {
+		key := vcKeys[k]
+		if in, _ := s.Has(key); !in {
+			continue
+		}
+		for _, v := range []bool{true, false, true} {
+			verif.Assert("setmd-after-restart", s.SetMetadata(key, metadata.NewPersist(v)) == nil)
+			var md metadata.Persist
+			has, err := s.GetMetadata(key, &md)
+			verif.Assert("getmd-after-restart", err == nil && has)
+			if err == nil && has {
+				verif.Assert("getmd-after-restart-value", md.Value == v)
+			}
+		}
+	}
 	// every key can be created and completed again
 	for k := range vcKeys {
 		key := vcKeys[k]
